@@ -1,3 +1,201 @@
-(* C19 - placeholder while the proofs are being built *)
-From Coq Require Import ZArith List.
-From PCB Require Import gen.Gen_flow model.Flow model.FlowRef.
+(* C19 - Structured control flow follows its reference semantics.
+   Only statements, `exact`, Print Assumptions and non-vacuity examples here.
+   Machine: model/Flow.v (step, steps, run);  reference semantics and layout: model/FlowRef.v. *)
+From Coq Require Import ZArith List Bool.
+From PCB Require Import gen.Gen_flow model.Flow model.FlowRef proofs.Flow_proofs proofs.FlowRef_proofs.
+Import ListNotations.
+Open Scope Z_scope.
+
+(* ---- refinement: any nesting depth ------------------------------------------------------------------
+   For every well-formed structured program (nested FOR/NEXT, WHILE/WEND, one-line IF/THEN/ELSE, GOSUB and
+   ON..GOSUB to subroutines, any depth, any line layout) the machine run on its layout produces exactly the
+   output trace and the outcome (finished / error number and line / still running) that the reference
+   semantics prescribes - for every amount of fuel, so also for programs that never end. *)
+Theorem C19_nested_refines : forall p fuel, wf_prog p ->
+  run_program (compile_prog p) fuel = exec_prog p fuel.
+Proof. intros p fuel H. exact (refines p H fuel). Qed.
+Print Assumptions C19_nested_refines.
+
+(* ---- FOR: trip count --------------------------------------------------------------------------------
+   FOR v = a TO b STEP s : PRINT v : NEXT [v]   with 16-bit a, b, s and s <> 0, reached in any state:
+   after 1 + 2n statements the loop has been left, the output is a, a+s, ..., a+(n-1)s with
+   n = max 0 (floor((b-a)/s) + 1)  (n = 0: the body is not executed at all), the stacks are as before and
+   v holds the first value past the end.  (The counter must stay a 16-bit integer up to that value; otherwise
+   the program stops with Overflow, see C19_nested_refines / correspondence.) *)
+Theorem C19_for_trip_count : forall code i v a b s vs st,
+  nth_error code i = Some (SFor v (EConst a) (EConst b) (EConst s)) ->
+  nth_error code (S i) = Some (SPrint (EVar v)) ->
+  nth_error code (S (S i)) = Some (SNext vs) -> (vs = [] \/ vs = [v]) ->
+  in16 a = true -> in16 b = true -> in16 s = true -> s <> 0 -> pc st = i ->
+  let n := trip_count a b s in
+  in16 (a + Z.max n 1 * s) = true ->
+  steps code (1 + 2 * Z.to_nat n) st =
+    Some (for_values a s 0 (Z.to_nat n), exit_state i v st (a + Z.max n 1 * s)).
+Proof. intros code i v a b s vs st H1 H2 H3 H4 H5 H6 H7 H8 H9. exact (for_trip_count code i v a b s vs H1 H2 H3 H4 H5 H6 H7 st H8 H9). Qed.
+Print Assumptions C19_for_trip_count.
+
+(* STEP 0 has the direction "not negative" at FOR and at NEXT alike (D17):
+   start past the end -> the body is not executed; otherwise the counter never passes the end and the loop
+   has no finite trip count: the body is repeated for ever. *)
+Theorem C19_for_step0_skip : forall code i v a b vs st,
+  nth_error code i = Some (SFor v (EConst a) (EConst b) (EConst 0)) ->
+  nth_error code (S i) = Some (SPrint (EVar v)) ->
+  nth_error code (S (S i)) = Some (SNext vs) -> (vs = [] \/ vs = [v]) ->
+  in16 a = true -> in16 b = true -> pc st = i -> a > b ->
+  steps code 1 st = Some ([], exit_state i v st a).
+Proof. intros code i v a b vs st H1 H2 H3 H4 H5 H6 H7 H8. exact (for_step0_skip code i v a b 0 vs H1 H2 H3 H4 H5 H6 eq_refl st eq_refl H7 H8). Qed.
+Print Assumptions C19_for_step0_skip.
+
+Theorem C19_for_step0_forever : forall code i v a b vs st,
+  nth_error code i = Some (SFor v (EConst a) (EConst b) (EConst 0)) ->
+  nth_error code (S i) = Some (SPrint (EVar v)) ->
+  nth_error code (S (S i)) = Some (SNext vs) -> (vs = [] \/ vs = [v]) ->
+  in16 a = true -> in16 b = true -> pc st = i -> a <= b ->
+  (forall m, steps code (1 + 2 * m) st = Some (repeat a m, body_state i v b 0 st a)) /\
+  (forall fuel, snd (run code fuel st) = OutOfFuel).
+Proof.
+  intros code i v a b vs st H1 H2 H3 H4 H5 H6 H7 H8. split.
+  - exact (for_step0_forever code i v a b 0 vs H1 H2 H3 H4 H5 H6 eq_refl st eq_refl H7 H8).
+  - exact (for_step0_diverges code i v a b 0 vs H1 H2 H3 H4 H5 H6 eq_refl st eq_refl H7 H8).
+Qed.
+Print Assumptions C19_for_step0_forever.
+
+(* ---- GOSUB / RETURN ---------------------------------------------------------------------------------
+   GOSUB records the calling statement on top of the stack and jumps; RETURN removes the top record and
+   continues after the statement it names (at any depth: C19_nested_refines treats GOSUB as a call). *)
+Theorem C19_gosub : forall code st n j,
+  nth_error code (pc st) = Some (SGosub n) -> find_line code n = Some j ->
+  step code st = Go (set_pc (set_gosubs st (pc st :: gosubs st)) j) [].
+Proof. exact gosub_step. Qed.
+Print Assumptions C19_gosub.
+
+Theorem C19_return : forall code st r rest,
+  nth_error code (pc st) = Some (SReturn None) -> gosubs st = r :: rest ->
+  step code st = Go (set_pc (set_gosubs st rest) (S r)) [].
+Proof. exact return_step. Qed.
+Print Assumptions C19_return.
+
+(* ---- ON n GOTO / GOSUB ------------------------------------------------------------------------------ *)
+Theorem C19_on_select : forall code st e gosub ns z j,
+  nth_error code (pc st) = Some (SOn e gosub ns) -> eval (ds st) e = EV z ->
+  1 <= z <= Z.of_nat (length ns) -> z <= 255 ->
+  find_line code (nth (Z.to_nat (z - 1)) ns 0) = Some j ->
+  step code st = Go (set_pc (if gosub then set_gosubs st (pc st :: gosubs st) else st) j) [].
+Proof. intros code st e gosub ns z j H1 H2. exact (on_select code st e gosub ns z H1 H2 j). Qed.
+Print Assumptions C19_on_select.
+
+Theorem C19_on_fall_through : forall code st e gosub ns z,
+  nth_error code (pc st) = Some (SOn e gosub ns) -> eval (ds st) e = EV z ->
+  z = 0 \/ Z.of_nat (length ns) < z <= 255 ->
+  step code st = Go (set_pc st (S (pc st))) [].
+Proof. exact on_fall_through. Qed.
+Print Assumptions C19_on_fall_through.
+
+Theorem C19_on_out_of_range : forall code st e gosub ns z,
+  nth_error code (pc st) = Some (SOn e gosub ns) -> eval (ds st) e = EV z ->
+  (in16 z = true -> z < 0 \/ z > 255 ->
+     step code st = trap code st (pc st) flow_E_ILLEGAL_FUNCTION_CALL (pc st)) /\
+  (in16 z = false -> step code st = trap code st (pc st) flow_E_OVERFLOW (pc st)).
+Proof.
+  intros code st e gosub ns z H1 H2. split.
+  - exact (on_ifc code st e gosub ns z H1 H2).
+  - exact (on_overflow code st e gosub ns z H1 H2).
+Qed.
+Print Assumptions C19_on_out_of_range.
+
+(* ---- mismatched NEXT / WEND / RETURN / FOR / WHILE --------------------------------------------------
+   (`trap` is the error entry of the machine: without an active handler it ends the program with the
+   message of that error and the line, lemma trap_untrapped) *)
+Theorem C19_mismatch_errors : forall code st,
+  (* RETURN with an empty GOSUB stack *)
+  (forall tgt, nth_error code (pc st) = Some (SReturn tgt) -> gosubs st = [] ->
+     step code st = trap code st (pc st) flow_E_RETURN_WITHOUT_GOSUB (pc st)) /\
+  (* NEXT that no FOR record points at *)
+  (forall vs, nth_error code (pc st) = Some (SNext vs) -> find_for (fors st) (pc st) 0 = None ->
+     step code st = trap code st (pc st) flow_E_NEXT_WITHOUT_FOR (pc st)) /\
+  (* NEXT v reached by the loop of another variable *)
+  (forall v vs f below, nth_error code (pc st) = Some (SNext (v :: vs)) ->
+     find_for (fors st) (pc st) 0 = Some (f, below) -> v <> f_var f ->
+     step code st = trap code st (pc st) flow_E_NEXT_WITHOUT_FOR (pc st)) /\
+  (* FOR with no NEXT after it *)
+  (forall v a b s va vb vs, nth_error code (pc st) = Some (SFor v a b s) ->
+     eval (ds st) a = EV va -> eval (ds st) b = EV vb -> eval (ds st) s = EV vs ->
+     in16 va = true -> in16 vb = true -> in16 vs = true ->
+     scan_next (skipn (S (pc st)) code) (S (pc st)) 0 = None ->
+     step code st = trap code st (pc st) flow_E_FOR_WITHOUT_NEXT (pc st)) /\
+  (* WHILE with no WEND after it *)
+  (forall c, nth_error code (pc st) = Some (SWhile c) ->
+     scan_wend (skipn (S (pc st)) code) (S (pc st)) 0 = None ->
+     step code st = trap code st (pc st) flow_E_WHILE_WITHOUT_WEND (pc st)) /\
+  (* WEND that no WHILE record points at *)
+  (nth_error code (pc st) = Some SWend -> (forall w e, In (w, e) (whiles st) -> e <> pc st) ->
+     step code st = trap code (set_whiles st []) (pc st) flow_E_WEND_WITHOUT_WHILE (pc st)).
+Proof.
+  intros code st. repeat split.
+  - exact (return_without_gosub code st).
+  - exact (next_step_without_for code st).
+  - exact (next_step_wrong_var code st).
+  - exact (for_step_without_next code st).
+  - exact (while_step_without_wend code st).
+  - exact (wend_step_without_while code st).
+Qed.
+Print Assumptions C19_mismatch_errors.
+
+(* a bare NEXT raises NEXT without FOR only in that shape (its other error is Overflow of the counter) *)
+Theorem C19_next_error_exact : forall st st' c,
+  next_vars st (pc st) 0 [None] = IErr st' c ->
+  (c = flow_E_NEXT_WITHOUT_FOR <-> find_for (fors st) (pc st) 0 = None).
+Proof. exact next_without_for. Qed.
+Print Assumptions C19_next_error_exact.
+
+Theorem C19_untrapped_error_stops : forall code st i c epos,
+  onerr (ds st) = 0 \/ handling (ds st) = true ->
+  trap code st i c epos = Halt (Stopped c (line_of code epos)).
+Proof. exact trap_untrapped. Qed.
+Print Assumptions C19_untrapped_error_stops.
+
+Theorem C19_error_numbers :
+  flow_E_NEXT_WITHOUT_FOR = 1 /\ flow_E_RETURN_WITHOUT_GOSUB = 3 /\ flow_E_ILLEGAL_FUNCTION_CALL = 5 /\
+  flow_E_OVERFLOW = 6 /\ flow_E_UNDEFINED_LINE_NUMBER = 8 /\ flow_E_DIVISION_BY_ZERO = 11 /\
+  flow_E_NO_RESUME = 19 /\ flow_E_RESUME_WITHOUT_ERROR = 20 /\ flow_E_FOR_WITHOUT_NEXT = 26 /\
+  flow_E_WHILE_WITHOUT_WEND = 29 /\ flow_E_WEND_WITHOUT_WHILE = 30.
+Proof. exact error_numbers. Qed.
+
+(* ---- non-vacuity ------------------------------------------------------------------------------------ *)
+
+(* 10 FOR A%=1 TO 10 STEP 3:PRINT A%:NEXT A% : four passes *)
+Example C19_for_nonvacuous :
+  let code := [SLine 10; SFor 0%nat (EConst 1) (EConst 10) (EConst 3); SPrint (EVar 0%nat); SNext [0%nat]; SEndProg] in
+  trip_count 1 10 3 = 4 /\
+  steps code (1 + 2 * 4) (init_at 1) = Some ([1; 4; 7; 10], exit_state 1 0%nat (init_at 1) 13) /\
+  run_program code 100 = ([1; 4; 7; 10], Finished).
+Proof. repeat split; vm_compute; reflexivity. Qed.
+
+(* nested loops in a WHILE, an IF with a loop in its branch, GOSUB from inside a loop to a subroutine that
+   loops and calls another one, ON..GOSUB: well-formed, and both semantics give this trace *)
+Definition C19_example : sprog :=
+  {| p_main :=
+       [TLine 10; TLet 0%nat (EConst 0);
+        TWhile (ECmp CLt (EVar 0%nat) (EConst 2))
+          [TFor 4%nat (EConst 1) (EConst 2) (EConst 1) true
+             [TLine 20; TFor 5%nat (EConst 3) (EConst 1) (EConst (-2)) false
+                [TPrint (EAdd (EVar 4%nat) (EVar 5%nat)); TGosub 1000]];
+           TLet 0%nat (EAdd (EVar 0%nat) (EConst 1))];
+        TLine 30;
+        TIf (ECmp CEq (EVar 0%nat) (EConst 2))
+          [TFor 4%nat (EConst 5) (EConst 1) (EConst 1) true [TPrint (EConst 99)]; TPrint (EConst 7)]
+          [TPrint (EConst 8)] 40;
+        TOnGosub (EConst 2) [1000; 1100]; TOnGosub (EConst 3) [1000; 1100]; TPrint (EConst 5)];
+     p_subs :=
+       [(1000, [TFor 6%nat (EConst 1) (EConst 2) (EConst 1) true [TGosub 1100]]);
+        (1100, [TPrint (EConst (-1))])] |}.
+
+Example C19_refines_nonvacuous :
+  wf_prog C19_example /\
+  exec_prog C19_example 1000 =
+    ([4; -1; -1; 2; -1; -1; 5; -1; -1; 3; -1; -1; 4; -1; -1; 2; -1; -1; 5; -1; -1; 3; -1; -1; 7; -1; 5], Finished) /\
+  run_program (compile_prog C19_example) 1000 = exec_prog C19_example 1000.
+Proof.
+  split; [apply wf_progb_ok; vm_compute; reflexivity|].
+  split; vm_compute; reflexivity.
+Qed.
